@@ -591,7 +591,7 @@ def translate(events, world):
                     r["hasfacts"] = True
                     r["ftype"] = d["Type"]
                     try:
-                        r["fsize"] = int(d.get("Size", 0))
+                        r["fsize"] = int(d.get("Size", -1))     # (no Size fact is not "Size=0")
                     except ValueError:
                         r["fsize"] = -1
                     if r["fsize"] >= 2 ** 31:
